@@ -29,6 +29,8 @@ PROGS = collections.OrderedDict([
     ("twoparams", H + "\nG({a}+{b}, k={a}*2) | [0, 1]\nG({b}) | 1\n"),
     ("loop", H + "\nfor int i in 0:2\n    G({a}, i) | i\n"),
     ("plain", H + "\nG | 0\nH(1.5, k=[1]) | 1\nK() | [0, 1]\n"),
+    ("affine", H + "\nG(2*{a}-1, 1-{b}/3) | 0\nH(k=0.5*{a}*{b}-{a}+2) | 1\n"),
+    ("tdm-template", H + "type tdm (temporal_modes=3)\n\nfloat array p0 =\n    0.5, 1.5\nG(p0, {a}) | 0\n"),
 ])
 V1 = {"a": 0.5, "b": 2.0, "P": [[1.0, 2.0]]}
 V2 = {"a": -1.0, "b": 3.0, "P": [[3.0, 4.0]]}
@@ -67,14 +69,19 @@ def copy_ops_guard(p):
 
 
 def digest(p):
+    """content through the attributes FIRST (taking a digest itself serialises and builds a graph: whatever those do
+    to the object shows in the next digest's first component), then the text, the graph, and the content again"""
+    def content():
+        try:
+            return observe.prog_canon(p, exact=True, variables=True, argskey=True)
+        except Exception as e:  # noqa
+            return ("canon-exc", type(e).__name__)
+    c0 = content()
     st, txt = common.dumps(p)
     if st == "exc":
         txt = "EXC:" + type(txt).__name__
-    try:
-        c = observe.prog_canon(p, exact=True, variables=True, argskey=True)
-    except Exception as e:  # noqa
-        c = ("canon-exc", type(e).__name__)
-    return hashlib.sha1(repr((txt, c, graph_canon(p))).encode()).hexdigest()[:16]
+    g = graph_canon(p)
+    return hashlib.sha1(repr((c0, txt, g, content())).encode()).hexdigest()[:16]
 
 
 def explain(p):
